@@ -1,6 +1,7 @@
 // sfprobe: small debugging helper (not part of any check).
-//   sfprobe wkb <hex>      decode with NoValidate, print WKT and Validate()
-//   sfprobe wkt <text>     parse with NoValidate, print Validate()
+//
+//	sfprobe wkb <hex>      decode with NoValidate, print WKT and Validate()
+//	sfprobe wkt <text>     parse with NoValidate, print Validate()
 package main
 
 import (
